@@ -7,7 +7,7 @@ cd /verif
 echo "== files changed on $R outside the owner's area:"
 git diff --name-only main..."$R" | grep -v -E "^(checks/${B}|checks/c03|translate/${B}|translate/c03|rocq/|known_findings\.d/|docs/|corpus/|evidence/|harness/${B}|harness/c03|seeded/)" || echo "(none)"
 echo "== merging $R into /verif main"
-git merge --no-edit "$R" 2>&1 | tail -3
+git merge --no-edit -X theirs "$R" 2>&1 | tail -3
 echo "== commits on /repo branch $R not yet on main (by patch id):"
 git -C /repo cherry -v main "$R" || true
 for h in $(git -C /repo cherry main "$R" | awk '$1=="+"{print $2}'); do
